@@ -57,7 +57,7 @@ func genC33(t *rapid.T) C33Case {
 		}
 		c.Clients = append(c.Clients, ops)
 	}
-	c.Sched = Sched{Tape: genTape(t, 400), Disabled: genDisabled(t, incrOptional), PCT: genPCT(t, 200)}
+	c.Sched = Sched{Tape: genTape(t, 400), Disabled: genDisabled(t, incrOptional), PCT: genPCT(t, 200), Tail: genTail(t)}
 	return c
 }
 
